@@ -79,7 +79,7 @@ pub struct Cfg {
     pub cost_models: u8,
     pub slot: u64,
     pub time: u128,
-    /// build the compiler as a struct literal (all its fields are public) instead of through `Compiler::new`
+    /// configure the compiler by assigning its public `config` field after construction instead of through `Compiler::new`
     pub by_literal: bool,
 }
 
@@ -126,8 +126,12 @@ pub fn compiler(cfg: &Cfg) -> Compiler {
     let config = Config { extra_fees: cfg.extra_fees };
     let cursor = ChainPoint { slot: cfg.slot, hash: vec![], timestamp: cfg.time };
     if cfg.by_literal {
-        // the two ways of obtaining an instance must behave alike
-        Compiler { pparams, config, latest_tx_body: None, cursor }
+        // the configuration is a public field: an instance configured after construction must behave like
+        // one configured through `new` (no struct literal here - it would stop compiling whenever the
+        // struct gains a field)
+        let mut c = Compiler::new(pparams, Config::default(), cursor);
+        c.config = config;
+        c
     } else {
         Compiler::new(pparams, config, cursor)
     }
